@@ -29,6 +29,8 @@ def seriesIds (frames : List TFrame) (maps : List (Option StepMap)) (s : Nat) : 
    | s' + 1 => match maps.getD s' none with | some m => m.values.filterMap id | none => [])
 
 deriving instance DecidableEq for VelResult
+deriving instance DecidableEq for TVert
+deriving instance DecidableEq for TFrame
 
 namespace C13r
 
